@@ -153,14 +153,29 @@ func halfPt(p [3]int) model3d.Coord3D {
 	return model3d.XYZ(float64(p[0])/2, float64(p[1])/2, float64(p[2])/2)
 }
 
-func observeRay(c model3d.Collider, tris []*model3d.Triangle, o, d [3]int, e int) rayObs {
+func observeRay(c model3d.Collider, tris []*model3d.Triangle, o, d [3]int, e int, interpNormals bool) rayObs {
 	sc := math.Ldexp(1, -e)
 	ray := &model3d.Ray{Origin: halfPt(o), Direction: model3d.XYZ(float64(d[0]), float64(d[1]), float64(d[2])).Scale(sc)}
 	obs := rayObs{O: o, D: d, Hits: []hitObs{}, E: e}
+	// flat: the normal that is put on record.  MeshToInterpNormalCollider reports Phong-interpolated normals, which
+	// differ from the face normals BY DESIGN; for that variant only, the normal part of the clauses "hits" / "first"
+	// is made vacuous by recording the normal of the (first) triangle whose own collision has the reported
+	// parameter - the parameter, the counts and every other clause are judged as for MeshToCollider.
+	flat := func(rc model3d.RayCollision) model3d.Coord3D {
+		if !interpNormals {
+			return rc.Normal
+		}
+		for _, t := range tris {
+			if rc1, ok := t.FirstRayCollision(ray); ok && rc1.Scale == rc.Scale {
+				return rc1.Normal
+			}
+		}
+		return model3d.Coord3D{} // no triangle has such a collision: recorded as "bad"
+	}
 	obs.N = c.RayCollisions(ray, func(rc model3d.RayCollision) {
 		obs.Ncb++
 		t4, ok := quarter(rc.Scale * sc)
-		ax, sg, ok2 := axisNormal(rc.Normal)
+		ax, sg, ok2 := axisNormal(flat(rc))
 		if !ok || !ok2 || rc.Scale < 0 {
 			obs.Bad++
 		}
@@ -171,7 +186,7 @@ func observeRay(c model3d.Collider, tris []*model3d.Triangle, o, d [3]int, e int
 	obs.First.Ok = ok
 	if ok {
 		t4, e1 := quarter(fc.Scale * sc)
-		ax, sg, e2 := axisNormal(fc.Normal)
+		ax, sg, e2 := axisNormal(flat(fc))
 		if !e1 || !e2 {
 			obs.Bad++
 		}
@@ -201,19 +216,21 @@ type voxCollider struct {
 	noTris bool // not a collection of triangles: nothing to scan linearly (clause "scan" is vacuous)
 	// skipRay (may be nil): rays (origin in half units, integer direction) that are not put to this collider
 	skipRay func(o, d [3]int) bool
+	// interpNormals: the collider reports interpolated normals (see observeRay)
+	interpNormals bool
 }
 
 func voxColliders() []voxCollider {
 	return []voxCollider{
-		{"MeshToCollider", func(m *model3d.Mesh, _ *rand.Rand) model3d.Collider { return model3d.MeshToCollider(m) }, false, nil},
+		{"MeshToCollider", func(m *model3d.Mesh, _ *rand.Rand) model3d.Collider { return model3d.MeshToCollider(m) }, false, nil, false},
 		{"BVHAreaDensity", func(m *model3d.Mesh, _ *rand.Rand) model3d.Collider {
 			return model3d.BVHToCollider(model3d.NewBVHAreaDensity(m.TriangleSlice()))
-		}, false, nil},
+		}, false, nil, false},
 		{"GroupedTriangles", func(m *model3d.Mesh, _ *rand.Rand) model3d.Collider {
 			tris := m.TriangleSlice()
 			model3d.GroupTriangles(tris)
 			return model3d.GroupedTrianglesToCollider(tris)
-		}, false, nil},
+		}, false, nil, false},
 		{"JoinedNested", func(m *model3d.Mesh, rng *rand.Rand) model3d.Collider {
 			tris := m.TriangleSlice()
 			rng.Shuffle(len(tris), func(i, j int) { tris[i], tris[j] = tris[j], tris[i] })
@@ -231,7 +248,28 @@ func voxColliders() []voxCollider {
 				return model3d.NewJoinedCollider([]model3d.Collider{nest(cs[:k], depth-1), nest(cs[k:], depth-1)})
 			}
 			return nest(leaves, 3)
-		}, false, nil},
+		}, false, nil, false},
+	}
+}
+
+// voxColliders2: further accelerated colliders over the same triangles.  They are run from their own random stream
+// and numbered from their own counter, so that the records of voxColliders() stay what they were.
+func voxColliders2() []voxCollider {
+	return []voxCollider{
+		// "To group the colliders, see GroupBounders()": the triangles as plain colliders
+		{"GroupedColliders", func(m *model3d.Mesh, rng *rand.Rand) model3d.Collider {
+			tris := m.TriangleSlice()
+			rng.Shuffle(len(tris), func(i, j int) { tris[i], tris[j] = tris[j], tris[i] })
+			cs := make([]model3d.Collider, len(tris))
+			for i, t := range tris {
+				cs[i] = t
+			}
+			model3d.GroupBounders(cs)
+			return model3d.GroupedCollidersToCollider(cs)
+		}, false, nil, false},
+		{"MeshToInterpNormalCollider", func(m *model3d.Mesh, _ *rand.Rand) model3d.Collider {
+			return model3d.MeshToInterpNormalCollider(m)
+		}, false, nil, true},
 	}
 }
 
@@ -258,7 +296,7 @@ func runVoxelWorld(id int, vox [][3]int, vc voxCollider, rng *rand.Rand, nrays, 
 				rec.Skipped++
 				continue
 			}
-			rec.Rays = append(rec.Rays, observeRay(coll, tris, o, d, e))
+			rec.Rays = append(rec.Rays, observeRay(coll, tris, o, d, e, vc.interpNormals))
 			i++
 		}
 		for i := 0; i < nsph; i++ {
@@ -364,6 +402,13 @@ func voxSDFs(rng *rand.Rand) []voxSDF {
 }
 
 var meshToSDF = voxSDF{"MeshToSDF", func(m *model3d.Mesh) model3d.SDF { return model3d.MeshToSDF(m) }, nil}
+
+// groupedTrianglesToSDF: the constructor behind MeshToSDF, called directly (GroupTriangles first, as documented)
+var groupedTrianglesToSDF = voxSDF{"GroupedTrianglesToSDF", func(m *model3d.Mesh) model3d.SDF {
+	tris := m.TriangleSlice()
+	model3d.GroupTriangles(tris)
+	return model3d.GroupedTrianglesToSDF(tris)
+}, nil}
 
 func runVoxelSDF(id int, vox [][3]int, vs voxSDF, rng *rand.Rand, n int, ext [3]int) voxelRecord {
 	rec := voxelRecord{Id: id, Site: vs.name, Variant: "voxel-world", Voxels: vox, Rays: []rayObs{}, Spheres: []sphObs{},
@@ -539,7 +584,7 @@ func extColliders(w *extWorld) []voxCollider {
 	return []voxCollider{
 		{"ProfileCollider(MeshToCollider)", func(_ *model3d.Mesh, _ *rand.Rand) model3d.Collider {
 			return model3d.ProfileCollider(model2d.MeshToCollider(pixelOutline(w.pix)), z0, z1)
-		}, true, skip},
+		}, true, skip, false},
 		{"ProfileCollider(JoinedCollider)", func(_ *model3d.Mesh, rng *rand.Rand) model3d.Collider {
 			segs := pixelOutline(w.pix).SegmentSlice()
 			rng.Shuffle(len(segs), func(i, j int) { segs[i], segs[j] = segs[j], segs[i] })
@@ -548,7 +593,7 @@ func extColliders(w *extWorld) []voxCollider {
 				cs = append(cs, s)
 			}
 			return model3d.ProfileCollider(model2d.NewJoinedCollider(cs), z0, z1)
-		}, true, skip},
+		}, true, skip, false},
 	}
 }
 
@@ -629,11 +674,15 @@ func init() {
 		// the derived variants draw from their own stream, so that the records of the mesh variants do not
 		// depend on whether the derived ones are requested
 		rng2 := rand.New(rand.NewSource(int64(a.int("seed", 1))*7919 + 77))
+		// ... and so do the variants added later (voxColliders2, GroupedTrianglesToSDF); their ids come from a
+		// counter of their own: every record that existed before them is still written with the same contents
+		rng3 := rand.New(rand.NewSource(int64(a.int("seed", 1))*104729 + 13))
 		stats := map[string]int{}
-		id := 0
+		id, id3 := 0, 1<<20
 		kinds := a.str("kinds", "collider,sdf")
 		derived := a.int("derived", 0) != 0
 		colliders := voxColliders()
+		colliders2 := voxColliders2()
 		put := func(rec voxelRecord) {
 			stats["records"]++
 			stats["nonempty"]++
@@ -672,6 +721,16 @@ func init() {
 						put(runVoxelSDF(id, vox, vs, rng2, a.int("sdf", 40), ext))
 					}
 				}
+			}
+			if strings.Contains(kinds, "collider") {
+				for _, vc := range colliders2 {
+					id3++
+					put(runVoxelWorld(id3, vox, vc, rng3, a.int("rays", 40), a.int("spheres", 20), ext))
+				}
+			}
+			if strings.Contains(kinds, "sdf") {
+				id3++
+				put(runVoxelSDF(id3, vox, groupedTrianglesToSDF, rng3, a.int("sdf", 40), ext))
 			}
 		}
 		emitExt := func(w *extWorld, ext [3]int) {
